@@ -14,7 +14,10 @@ EXTENDS Integers, FiniteSets, TLC
 CONSTANTS NL,         \* number of listen addresses
           FailAt,     \* 0: every listen succeeds; k: the k-th listen fails
           MaxRx,      \* datagrams received in a behaviour (bound)
-          EmptyQuits  \* FALSE: the code.  TRUE: the weakened design in which a 0-byte read ends Serve (stream-socket habit)
+          EmptyQuits, \* FALSE: the code.  TRUE: the weakened design in which a 0-byte read ends Serve (stream-socket habit)
+          LoadOK,     \* does plugins.LoadPlugins succeed for this configuration
+          BindFirst   \* FALSE: the code (plugins are loaded BEFORE any socket is opened).  TRUE: the weakened design
+                      \*        that binds and serves first and hands the handler chain to the listeners afterwards
 
 L == 1 .. NL
 VARIABLES sock,     \* per listener: "none" | "open" | "closed"
@@ -23,50 +26,62 @@ VARIABLES sock,     \* per listener: "none" | "open" | "closed"
           nextl,    \* next listener Start opens
           wait,     \* "no" | "first" | "rest" | "returned"
           got,      \* results Wait has taken
-          rx        \* datagrams received so far
-vars == <<sock, srv, start, nextl, wait, got, rx>>
+          rx,       \* datagrams received so far
+          loaded,   \* plugins.LoadPlugins: "no" | "ok" | "failed"
+          bare      \* history: a datagram was handled by a listener that had no handler chain yet
+vars == <<sock, srv, start, nextl, wait, got, rx, loaded, bare>>
 
 Init == /\ sock = [i \in L |-> "none"] /\ srv = [i \in L |-> "none"]
         /\ start = "opening" /\ nextl = 1 /\ wait = "no" /\ got = 0 /\ rx = 0
+        /\ loaded = "no" /\ bare = FALSE
+
+\* Start's first step in the code: the handler chains are built (every plugin's setup runs) before anything listens
+Load == /\ start = "opening" /\ loaded = "no" /\ (BindFirst => nextl = NL + 1 \/ nextl = FailAt)
+        /\ loaded' = IF LoadOK THEN "ok" ELSE "failed"
+        /\ start' = IF LoadOK THEN start ELSE "err"
+        /\ sock' = [i \in L |-> IF ~LoadOK /\ sock[i] = "open" THEN "closed" ELSE sock[i]]   \* cleanup
+        /\ UNCHANGED <<srv, nextl, wait, got, rx, bare>>
 
 Open == /\ start = "opening" /\ nextl <= NL /\ nextl # FailAt
+        /\ (~BindFirst => loaded = "ok")
         /\ sock' = [sock EXCEPT ![nextl] = "open"] /\ srv' = [srv EXCEPT ![nextl] = "reading"]
-        /\ nextl' = nextl + 1 /\ UNCHANGED <<start, wait, got, rx>>
-OpenFails == /\ start = "opening" /\ nextl = FailAt
+        /\ nextl' = nextl + 1 /\ UNCHANGED <<start, wait, got, rx, loaded, bare>>
+OpenFails == /\ start = "opening" /\ nextl = FailAt /\ (~BindFirst => loaded = "ok")
              /\ sock' = [i \in L |-> IF sock[i] = "open" THEN "closed" ELSE sock[i]]     \* cleanup: srv.Close()
-             /\ start' = "err" /\ UNCHANGED <<srv, nextl, wait, got, rx>>
-Started == /\ start = "opening" /\ nextl = NL + 1 /\ start' = "ok" /\ UNCHANGED <<sock, srv, nextl, wait, got, rx>>
+             /\ start' = "err" /\ UNCHANGED <<srv, nextl, wait, got, rx, loaded, bare>>
+Started == /\ start = "opening" /\ nextl = NL + 1 /\ loaded = "ok" /\ start' = "ok" /\ UNCHANGED <<sock, srv, nextl, wait, got, rx, loaded, bare>>
 
 \* a Serve goroutine whose socket was closed stops reading and offers its result
 ReadFails(i) == /\ srv[i] = "reading" /\ sock[i] = "closed" /\ srv' = [srv EXCEPT ![i] = "sending"]
-                /\ UNCHANGED <<sock, start, nextl, wait, got, rx>>
+                /\ UNCHANGED <<sock, start, nextl, wait, got, rx, loaded, bare>>
 
 (* a datagram of ANY length - 0 bytes included: on UDP that is an empty datagram, not end of stream - is read, *)
 (* handed to its own handler goroutine (Server.tla) and Serve keeps reading                                  *)
 Datagram(i, empty) == /\ srv[i] = "reading" /\ sock[i] = "open" /\ rx < MaxRx
                       /\ rx' = rx + 1
+                      /\ bare' = (bare \/ loaded # "ok")          \* the handler chain this listener runs is whatever it has NOW
                       /\ srv' = IF empty /\ EmptyQuits THEN [srv EXCEPT ![i] = "sending"] ELSE srv
-                      /\ UNCHANGED <<sock, start, nextl, wait, got>>
+                      /\ UNCHANGED <<sock, start, nextl, wait, got, loaded>>
 
-CallWait == /\ start = "ok" /\ wait = "no" /\ wait' = "first" /\ UNCHANGED <<sock, srv, start, nextl, got, rx>>
+CallWait == /\ start = "ok" /\ wait = "no" /\ wait' = "first" /\ UNCHANGED <<sock, srv, start, nextl, got, rx, loaded, bare>>
 \* the environment closes the server (signal handler, test): Close()
 CloseAll == /\ start = "ok" /\ \E i \in L : sock[i] = "open"
             /\ sock' = [i \in L |-> IF sock[i] = "open" THEN "closed" ELSE sock[i]]
-            /\ UNCHANGED <<srv, start, nextl, wait, got, rx>>
+            /\ UNCHANGED <<srv, start, nextl, wait, got, rx, loaded, bare>>
 \* rendezvous on the unbuffered channel
 TakeFirst(i) == /\ wait = "first" /\ srv[i] = "sending"
                 /\ srv' = [srv EXCEPT ![i] = "returned"] /\ got' = 1
                 /\ sock' = [j \in L |-> IF sock[j] = "open" THEN "closed" ELSE sock[j]]  \* Wait closes everything
                 /\ wait' = IF NL = 1 THEN "returned" ELSE "rest"
-                /\ UNCHANGED <<start, nextl, rx>>
+                /\ UNCHANGED <<start, nextl, rx, loaded, bare>>
 TakeRest(i) == /\ wait = "rest" /\ srv[i] = "sending"
                /\ srv' = [srv EXCEPT ![i] = "returned"] /\ got' = got + 1
                /\ wait' = IF got + 1 = NL THEN "returned" ELSE "rest"
-               /\ UNCHANGED <<sock, start, nextl, rx>>
+               /\ UNCHANGED <<sock, start, nextl, rx, loaded, bare>>
 
-Next == Open \/ OpenFails \/ Started \/ CallWait \/ CloseAll \/ \E i \in L : ReadFails(i) \/ TakeFirst(i) \/ TakeRest(i)
+Next == Load \/ Open \/ OpenFails \/ Started \/ CallWait \/ CloseAll \/ \E i \in L : ReadFails(i) \/ TakeFirst(i) \/ TakeRest(i)
         \/ \E k \in L, empty \in BOOLEAN : Datagram(k, empty)
-Spec == Init /\ [][Next]_vars /\ WF_vars(Open \/ OpenFails \/ Started) /\ WF_vars(CallWait)
+Spec == Init /\ [][Next]_vars /\ WF_vars(Load \/ Open \/ OpenFails \/ Started) /\ WF_vars(CallWait)
              /\ \A i \in L : WF_vars(ReadFails(i)) /\ WF_vars(TakeFirst(i)) /\ WF_vars(TakeRest(i))
 
 ----------------------------------------------------------------------------
@@ -76,6 +91,10 @@ CleanupOnError == start = "err" => \A i \in L : sock[i] # "open"
 AllServing == (start = "ok" /\ wait = "no" /\ \A i \in L : sock[i] = "open") => \A i \in L : srv[i] = "reading"
 \* no datagram ends a Serve loop: a listener whose socket is open keeps reading (C01's availability over real sockets)
 ServesWhileOpen == \A i \in L : (sock[i] = "open" /\ srv[i] # "none") => srv[i] = "reading"
+\* C13 at start-up: no datagram is ever handled by anything but the configured chain - in particular a configuration
+\* whose plugin setup fails never answers a request
+NeverServesBare == ~bare
+FailedLoadNeverListened == loaded = "failed" => \A i \in L : srv[i] = "none"
 \* once the sockets are closed, Wait returns, having collected every Serve result
 WaitReturns == (start = "ok" /\ NL >= 1 /\ \A i \in L : sock[i] = "closed") ~> (wait = "returned")
 CollectsAll == wait = "returned" => (got = NL /\ \A i \in L : srv[i] = "returned" /\ sock[i] = "closed")
